@@ -156,18 +156,33 @@ Record sseen := SSeen {
 Definition valid_emits (heap : list smsg) (ops : list sop) : list nat :=
   filter (fun i => match nth_error heap i with Some _ => true | None => false end) (emitted_before_close ops).
 
+Definition count_nat (i : nat) (l : list nat) : nat := length (filter (Nat.eqb i) l).
+
+(** the k-th delivery of an object has been through every transform k times (innermost first);
+    uuid / payload / other metadata are never touched *)
+Fixpoint trails_ok (tags : list N) (heap : list smsg) (outs : list (nat * N * list N)) (seen : list nat) : bool :=
+  match outs with
+  | [] => true
+  | x :: r =>
+      let i := fst (fst x) in
+      match nth_error heap i with
+      | Some m => N.eqb (snd (fst x)) (sm_rest m)
+                  && list_eqb N.eqb (snd x) (sm_trail m ++ concat (repeat tags (S (count_nat i seen))))
+                  && trails_ok tags heap r (i :: seen)
+      | None => false
+      end
+  end.
+
 Definition sub_monitor (st : list sdec) (heap : list smsg) (ops : list sop) (o : sseen) : bool :=
-  (* same objects, same order, each transform once (innermost first), content untouched *)
+  (* same objects, same order, each transform once per delivery, content untouched *)
   list_eqb Nat.eqb (map (fun x => fst (fst x)) (s_out o)) (valid_emits heap ops)
-  && forallb (fun x => match nth_error heap (fst (fst x)) with
-                       | Some m => N.eqb (snd (fst x)) (sm_rest m)
-                                   && list_eqb N.eqb (snd x) (sm_trail m ++ rev (stransform_tags st))
-                       | None => false end) (s_out o)
+  && trails_ok (rev (stransform_tags st)) heap (s_out o) []
   (* settling the received message settles the wrapped subscriber's message: first call wins *)
   && list_eqb settle_eqb (s_final o)
        (map (fun i => match nth_error heap i with
                       | Some m => Message.Model.st (final_state m i ops) | None => Unsettled end)
             (seq_from 0 (length heap)))
+  (* every Close reaches the wrapped subscriber once and returns its answer *)
   && Nat.eqb (s_closes o) (count_closes ops)
   && forallb (fun x => optN_eqb (snd (pclose st (fst x))) (snd x)) (s_close_rets o)
   && Nat.eqb (length (s_close_rets o)) (count_closes ops)
